@@ -354,10 +354,16 @@ func runConcTask(sh *concShared, tk cTask) string {
 	case "cliques-chan":
 		_, gr := pick()
 		cl, err := drainCliques(gr)
+		if err != nil {
+			panic(err) // producer panicked, changed a delivered clique, or never closed its channel
+		}
 		fmt.Fprint(&sb, sortedSets(cl), err)
 		// and on an own 32..40-vertex graph with many maximal cliques: the consumer keeps every slice it receives
 		pg, _ := plantedCase{N: 32 + tk.A%9, K: 3 + tk.B%3, Dens: 5, Seed: uint64(tk.A*977 + tk.B)}.build()
 		cl, err = drainCliques(sparseOf(pg))
+		if err != nil {
+			panic(err)
+		}
 		fmt.Fprint(&sb, len(cl), sortedSets(cl)[:min(len(cl), 5)], err)
 	case "comb":
 		for n := 0; n <= 40; n += 3 {
